@@ -37,7 +37,9 @@ CONSTANTS MaxN,             \* bound on the block-root tree size
           EqRootShortcut,   \* see above
           ZeroOldShortcut,  \* see above
           Tear,             \* TRUE: torn appends (crash between file write and tree-size commit) are explored
-          MutLevel          \* 1: small replacement universe, 2: every stored node and every prefix root
+          MutLevel,         \* 1: small replacement universe, 2: every stored node and every prefix root
+          BigInit,          \* SpecBig: set of tree sizes to start from (the tree is assumed built; the harness builds it)
+          Pairs             \* SpecBig: sampled <<m, s>> pairs (leaf / old size m, size s) that are queried
 
 (******************************** terms *************************************)
 Leaf(x) == <<"L", x>>
@@ -53,6 +55,9 @@ Reverse(s) == [i \in 1..Len(s) |-> s[Len(s) + 1 - i]]
 Front(s) == SubSeq(s, 1, Len(s) - 1)
 Last(s) == s[Len(s)]
 Max(a, b) == IF a > b THEN a ELSE b
+\* TLC evaluates LET definitions and operator arguments by name, again at every reference; Bind
+\* evaluates v once and passes the value (keeps the recursions below linear in the tree depth)
+Bind(v, F(_)) == CHOOSE r \in {F(x) : x \in {v}} : TRUE
 
 \* largest power of two strictly below n; Go: 1 << (highBit(n-1) - 1), which is 0 for n = 1
 RECURSIVE P2Below(_, _)
@@ -67,7 +72,7 @@ PopCount(n) == IF n = 0 THEN 0 ELSE (n % 2) + PopCount(n \div 2)
 RECURSIVE MTH(_, _)
 MTH(lo, hi) == IF hi = lo THEN EmptyH
                ELSE IF hi = lo + 1 THEN Leaf(lo)
-               ELSE LET k == Split(hi - lo) IN Node(MTH(lo, lo + k), MTH(lo + k, hi))
+               ELSE Bind(Split(hi - lo), LAMBDA k : Node(MTH(lo, lo + k), MTH(lo + k, hi)))
 
 \* descriptors: <<lo, hi>> stands for MTH(D[lo:hi]), <<FOREIGN, k>> for Foreign(k), <<0, 0>> for the empty hash
 T(d) == IF d[1] = FOREIGN THEN Foreign(d[2]) ELSE MTH(d[1], d[2])
@@ -77,29 +82,29 @@ TS(ds) == [i \in 1..Len(ds) |-> T(ds[i])]
 RECURSIVE PathD(_, _, _)
 PathD(m, lo, hi) ==
     IF hi - lo <= 1 THEN <<>>
-    ELSE LET k == Split(hi - lo) IN
-         IF m < lo + k THEN Append(PathD(m, lo, lo + k), <<lo + k, hi>>)
-         ELSE Append(PathD(m, lo + k, hi), <<lo, lo + k>>)
+    ELSE Bind(lo + Split(hi - lo), LAMBDA mid :
+         IF m < mid THEN Append(PathD(m, lo, mid), <<mid, hi>>)
+         ELSE Append(PathD(m, mid, hi), <<lo, mid>>))
 \* the left/right decisions of PATH: the only thing a verifier learns from (index, size)
 RECURSIVE PathDirs(_, _, _)
 PathDirs(m, lo, hi) ==
     IF hi - lo <= 1 THEN <<>>
-    ELSE LET k == Split(hi - lo) IN
-         IF m < lo + k THEN Append(PathDirs(m, lo, lo + k), "l") ELSE Append(PathDirs(m, lo + k, hi), "r")
+    ELSE Bind(lo + Split(hi - lo), LAMBDA mid :
+         IF m < mid THEN Append(PathDirs(m, lo, mid), "l") ELSE Append(PathDirs(m, mid, hi), "r"))
 
 \* SUBPROOF(m, D[lo:hi], b) as descriptors (old tree = D[0:m], lo < m <= hi)
 RECURSIVE ProofD(_, _, _, _)
 ProofD(m, lo, hi, b) ==
     IF m = hi THEN (IF b THEN <<>> ELSE << <<lo, hi>> >>)
-    ELSE LET k == Split(hi - lo) IN
-         IF m <= lo + k THEN Append(ProofD(m, lo, lo + k, b), <<lo + k, hi>>)
-         ELSE Append(ProofD(m, lo + k, hi, FALSE), <<lo, lo + k>>)
+    ELSE Bind(lo + Split(hi - lo), LAMBDA mid :
+         IF m <= mid THEN Append(ProofD(m, lo, mid, b), <<mid, hi>>)
+         ELSE Append(ProofD(m, mid, hi, FALSE), <<lo, mid>>))
 RECURSIVE ProofDirs(_, _, _, _)
 ProofDirs(m, lo, hi, b) ==
     IF m = hi THEN (IF b THEN <<>> ELSE <<"e">>)
-    ELSE LET k == Split(hi - lo) IN
-         IF m <= lo + k THEN Append(ProofDirs(m, lo, lo + k, b), "l")
-         ELSE Append(ProofDirs(m, lo + k, hi, FALSE), "r")
+    ELSE Bind(lo + Split(hi - lo), LAMBDA mid :
+         IF m <= mid THEN Append(ProofDirs(m, lo, mid, b), "l")
+         ELSE Append(ProofDirs(m, mid, hi, FALSE), "r"))
 
 \* reference verifiers, by recursion on the RFC definitions
 \* (TLC re-evaluates a LET definition at every reference: recursive results are used exactly once,
@@ -109,9 +114,9 @@ RECURSIVE RootFromPath(_, _, _, _)
 RootFromPath(h, m, n, p) ==          \* m relative index, n size of the subtree
     IF n <= 1 THEN (IF p = <<>> THEN h ELSE ERR)
     ELSE IF p = <<>> THEN ERR
-    ELSE LET k == Split(n) IN
+    ELSE Bind(Split(n), LAMBDA k :
          IF m < k THEN Node(RootFromPath(h, m, k, Front(p)), Last(p))
-         ELSE Node(Last(p), RootFromPath(h, m - k, n - k, Front(p)))
+         ELSE Node(Last(p), RootFromPath(h, m - k, n - k, Front(p))))
 RefVerifyIncl(h, idx, p, root, size) == idx < size /\ RootFromPath(h, idx, size, p) = root
 
 \* root of the subtree in the old tree (new = FALSE) / in the new tree (new = TRUE), from SUBPROOF
@@ -120,10 +125,10 @@ ConsRec(new, r1, m, n, b, p) ==
     IF m = n THEN (IF b THEN (IF p = <<>> THEN r1 ELSE ERR)
                    ELSE (IF Len(p) = 1 THEN p[1] ELSE ERR))
     ELSE IF p = <<>> THEN ERR
-    ELSE LET k == Split(n) IN
+    ELSE Bind(Split(n), LAMBDA k :
          IF m <= k THEN (IF new THEN Node(ConsRec(new, r1, m, k, b, Front(p)), Last(p))
                          ELSE ConsRec(new, r1, m, k, b, Front(p)))
-         ELSE Node(Last(p), ConsRec(new, r1, m - k, n - k, FALSE, Front(p)))
+         ELSE Node(Last(p), ConsRec(new, r1, m - k, n - k, FALSE, Front(p))))
 RefVerifyCons(m, n, r1, r2, p) ==
     IF m > n THEN FALSE
     ELSE IF m = 0 THEN r1 = EmptyH /\ p = <<>>
@@ -132,7 +137,7 @@ RefVerifyCons(m, n, r1, r2, p) ==
 (******************* the compact tree and its hash file, as coded ***********)
 \* powers of two of n's binary expansion, descending  (getSubTreeSize / getSubTreePos)
 RECURSIVE Pows(_)
-Pows(n) == IF n = 0 THEN <<>> ELSE LET p == HiPow(n) IN <<p>> \o Pows(n - p)
+Pows(n) == IF n = 0 THEN <<>> ELSE Bind(HiPow(n), LAMBDA p : <<p>> \o Pows(n - p))
 RECURSIVE SumTo(_, _)
 SumTo(s, i) == IF i = 0 THEN 0 ELSE s[i] + SumTo(s, i - 1)
 SubTreeSize(n) == LET ps == Pows(n) IN [i \in 1..Len(ps) |-> 2 * ps[i] - 1]
@@ -160,24 +165,23 @@ Get(f, p) == IF p >= 1 /\ p <= Len(f) THEN f[p] ELSE ZeroH
 
 \* CompactMerkleTree.InclusionProof(m, n): m zero-based, n size
 RECURSIVE InclLoop(_, _, _, _, _)
+SubRoot(f, pos, base) == Bind([p \in 1..Len(pos) |-> Get(f, pos[p] + base)], LAMBDA sub : Fold(sub))
 InclLoop(f, m, n, offset, acc) ==
     IF n = 1 THEN acc
-    ELSE LET k == Split(n) IN
-         IF m < k THEN LET pos == SubTreePos(n - k)
-                           sub == [p \in 1..Len(pos) |-> Get(f, pos[p] + offset + 2 * k - 1)]
-                       IN InclLoop(f, m, k, offset, Append(acc, Fold(sub)))
-         ELSE InclLoop(f, m - k, n - k, offset + 2 * k - 1, Append(acc, Get(f, offset + 2 * k - 1)))
+    ELSE Bind(Split(n), LAMBDA k :
+         IF m < k THEN Bind(Append(acc, Bind(SubTreePos(n - k), LAMBDA pos : SubRoot(f, pos, offset + 2 * k - 1))),
+                            LAMBDA acc2 : InclLoop(f, m, k, offset, acc2))
+         ELSE Bind(offset + 2 * k - 1, LAMBDA off2 : Bind(Append(acc, Get(f, off2)), LAMBDA acc2 : InclLoop(f, m - k, n - k, off2, acc2))))
 InclusionProof(f, m, n) == Reverse(InclLoop(f, m, n, 0, <<>>))
 
 \* CompactMerkleTree.subproof(m, n, true)
 RECURSIVE SubLoop(_, _, _, _, _, _)
 SubLoop(f, m, n, b, offset, acc) ==
     IF m < n THEN
-         LET k == Split(n) IN
-         IF m <= k THEN LET pos == SubTreePos(n - k)
-                            sub == [p \in 1..Len(pos) |-> Get(f, pos[p] + offset + 2 * k - 1)]
-                        IN SubLoop(f, m, k, b, offset, Append(acc, Fold(sub)))
-         ELSE SubLoop(f, m - k, n - k, FALSE, offset + 2 * k - 1, Append(acc, Get(f, offset + 2 * k - 1)))
+         Bind(Split(n), LAMBDA k :
+         IF m <= k THEN Bind(Append(acc, Bind(SubTreePos(n - k), LAMBDA pos : SubRoot(f, pos, offset + 2 * k - 1))),
+                             LAMBDA acc2 : SubLoop(f, m, k, b, offset, acc2))
+         ELSE Bind(offset + 2 * k - 1, LAMBDA off2 : Bind(Append(acc, Get(f, off2)), LAMBDA acc2 : SubLoop(f, m - k, n - k, FALSE, off2, acc2))))
     ELSE IF ~b THEN LET pos == SubTreePos(n) IN
                     IF Len(pos) # 1 THEN Append(acc, <<"PANIC">>) ELSE Append(acc, Get(f, pos[1] + offset))
     ELSE acc
@@ -188,8 +192,8 @@ RECURSIVE VInclLoop(_, _, _, _, _)
 VInclLoop(calc, node, last, pos, path) ==
     IF last > 0 THEN
          IF pos >= Len(path) THEN ERR                                   \* "Proof too short"
-         ELSE IF node % 2 = 1 THEN VInclLoop(Node(path[pos + 1], calc), node \div 2, last \div 2, pos + 1, path)
-         ELSE IF node < last THEN VInclLoop(Node(calc, path[pos + 1]), node \div 2, last \div 2, pos + 1, path)
+         ELSE IF node % 2 = 1 THEN Bind(Node(path[pos + 1], calc), LAMBDA c2 : VInclLoop(c2, node \div 2, last \div 2, pos + 1, path))
+         ELSE IF node < last THEN Bind(Node(calc, path[pos + 1]), LAMBDA c2 : VInclLoop(c2, node \div 2, last \div 2, pos + 1, path))
          ELSE VInclLoop(calc, node \div 2, last \div 2, pos, path)
     ELSE IF pos < Len(path) THEN ERR ELSE calc                          \* "Proof too long"
 \* MerkleVerifier.VerifyLeafHashInclusion
@@ -299,7 +303,7 @@ GenCons(m, s) == /\ 1 <= m /\ m <= s /\ s <= n
 \* replacement universe for mutated hashes (descriptors)
 RECURSIVE Aligned(_, _)
 Aligned(lo, hi) == IF hi - lo <= 1 THEN {<<lo, hi>>}
-                   ELSE LET kk == Split(hi - lo) IN {<<lo, hi>>} \cup Aligned(lo, lo + kk) \cup Aligned(lo + kk, hi)
+                   ELSE Bind(lo + Split(hi - lo), LAMBDA mid : {<<lo, hi>>} \cup Aligned(lo, mid) \cup Aligned(mid, hi))
 Universe(s) == IF MutLevel >= 2
                THEN Aligned(0, s) \cup {<<0, j>> : j \in 0..(s + 1)} \cup {<<FOREIGN, 1>>}
                ELSE {<<0, s>>, <<0, 0>>, <<FOREIGN, 1>>, <<0, 1>>, <<s - 1, s>>}
@@ -359,10 +363,10 @@ SpecA == InitA /\ [][NextA]_vars
 (**************************** Part A: properties ****************************)
 \* the perfect-subtree roots the compact tree must hold, and the post-order file, from the RFC side
 RECURSIVE HashesD(_, _)
-HashesD(lo, hi) == IF hi = lo THEN <<>> ELSE LET p == HiPow(hi - lo) IN << <<lo, lo + p>> >> \o HashesD(lo + p, hi)
+HashesD(lo, hi) == IF hi = lo THEN <<>> ELSE Bind(lo + HiPow(hi - lo), LAMBDA mid : << <<lo, mid>> >> \o HashesD(mid, hi))
 RECURSIVE PostOrder(_, _)
 PostOrder(lo, hi) == IF hi - lo = 1 THEN <<Leaf(lo)>>
-                     ELSE LET kk == (hi - lo) \div 2 IN PostOrder(lo, lo + kk) \o PostOrder(lo + kk, hi) \o <<MTH(lo, hi)>>
+                     ELSE Bind(lo + (hi - lo) \div 2, LAMBDA mid : PostOrder(lo, mid) \o PostOrder(mid, hi) \o <<MTH(lo, hi)>>)
 RECURSIVE FileOf(_)
 FileOf(ds) == IF ds = <<>> THEN <<>> ELSE PostOrder(ds[1][1], ds[1][2]) \o FileOf(Tail(ds))
 
@@ -410,6 +414,23 @@ DeviationOK == [][act'.name = "VerifyCons" /\ act'.res # act'.resc =>
                     act'.resc /\ (act'.r1 = act'.r2 \/ act'.m = 0)]_vars
 \* negative control (expected to be violated with the switches on): the code as found is sound
 ConsSoundAsCoded == [][act'.name = "VerifyCons" /\ act'.mut \notin {"none", "newsize"} => ~act'.resc]_vars
+
+\* bigger trees (sampling): start from a tree of a size in BigInit, whose state is given by the RFC side
+\* (RootOK / FileOK hold by construction there and are re-established by every further Append);
+\* only the sampled pairs are queried
+InitBig == /\ n \in BigInit /\ k = 0 /\ mem = "live"
+           /\ hashes = TS(HashesD(0, n)) /\ file = FileOf(HashesD(0, n)) /\ wpos = StoredNum(n)
+           /\ act = [name |-> "Init"]
+NextBig == \/ DoAppend
+           \/ Reload
+           \/ \E pr \in Pairs : pr[1] < pr[2] /\ GenIncl(pr[1], pr[2])
+           \/ \E pr \in Pairs : GenCons(pr[1], pr[2])
+           \/ \E pr \in Pairs : pr[2] = n /\ pr[1] < n /\ \E c \in InclCases(pr[1], n) : DoVerifyIncl(c, pr[1])
+           \/ \E pr \in Pairs : pr[2] = n /\ pr[1] >= 1 /\ \E c \in ConsCases(pr[1], n) : DoVerifyCons(c, pr[1], n)
+SpecBig == InitBig /\ [][NextBig]_vars
+ProofGenOKS == \A pr \in Pairs : pr[2] <= n =>
+                  /\ (pr[1] < pr[2] => InclusionProof(file, pr[1], pr[2]) = TS(PathD(pr[1], 0, pr[2])))
+                  /\ (pr[1] >= 1 => ConsistencyProof(file, pr[1], pr[2]) = TS(ProofD(pr[1], 0, pr[2], TRUE)))
 
 StateA == [n |-> n, hashes |-> Nms(hashes), file |-> Nms(file), wpos |-> wpos, mem |-> mem, k |-> k]
 
